@@ -226,6 +226,14 @@ class FsFault:
                 raise _injected("%s %s (after completion)" % (kind, rel))
             raise ValueError("unknown fault action %r" % (action,))
 
+    def mark(self, kind, **extra):
+        """Log a marker event that is not a file operation (e.g. 'upexc': a plugin is about to raise)."""
+        with self.lock:
+            ev = {"k": self.seq, "kind": kind, "thread": threading.current_thread().name, "res": "mark"}
+            ev.update(extra)
+            self.seq += 1
+            self._log(ev)
+
     # -- wrappers -----------------------------------------------------------------------------
     def _makedirs(self, name, mode=0o777, exist_ok=False):
         return self._point("makedirs", name, lambda: os.makedirs(name, mode, exist_ok=exist_ok),
